@@ -211,13 +211,20 @@ Proof.
   unfold k. destruct (clen <=? MaxCookieLen) eqn:E; (split; [intros; lia|]); split; lia.
 Qed.
 
-Lemma exchange_inv p nx sent ok dflt :
+Lemma exchange_inv p nx sent ok nosend dflt :
   NoDup p -> NoDup sent -> (forall x, In x p -> ~ In x sent) ->
   (forall x, In x p \/ In x sent -> issued_below nx x) -> (length p <= 8)%nat ->
-  Inv dflt -> Inv (sys_exchange issue clen p nx sent ok dflt).
+  Inv dflt -> Inv (sys_exchange issue clen p nx sent ok nosend dflt).
 Proof.
   intros Hp Hs Hd Hi Hl Hdf. destruct p as [|c rest]; [exact Hdf|].
   unfold sys_exchange. unfold zlen.
+  destruct nosend.
+  { inversion Hp as [|? ? Hnc Hr]; subst. unfold Inv; cbn [s_pool s_sent s_next]. repeat split.
+    - exact Hr.
+    - exact Hs.
+    - intros x Hx. apply Hd. simpl. tauto.
+    - intros x [Hx|Hx]; apply Hi; simpl; tauto.
+    - simpl in Hl. lia. }
   pose proof (refill_bounds (length (c :: rest)) ltac:(simpl in *; lia)) as Hb. cbv zeta in Hb.
   set (np := Z.max 0 (num_placeholders (Z.of_nat (length (c :: rest))) 32 clen)) in *.
   set (k := if clen <=? MaxCookieLen then Z.to_nat (reply_count (1 + np) 32 clen) else O) in *.
@@ -294,8 +301,11 @@ Theorem step_sends s o :
 Proof.
   unfold sys_step. destruct (s_pool s) as [|c rest].
   - destruct (e_ke_ok o); [|left; reflexivity].
-    right. exists (issue (s_next s + e_skip o)). simpl. destruct (e_ok o); simpl; tauto.
-  - right. exists c. unfold sys_exchange. destruct (e_ok o); simpl; split; eauto.
+    unfold sys_exchange, issue_n, keCookies. cbn [seq map].
+    destruct (e_nosend o); [left; reflexivity|].
+    right. exists (issue (s_next s + e_skip o)). destruct (e_ok o); simpl; tauto.
+  - unfold sys_exchange. destruct (e_nosend o); [left; reflexivity|].
+    right. exists c. destruct (e_ok o); simpl; split; eauto.
 Qed.
 
 (* --- pool bounds --- *)
@@ -304,14 +314,16 @@ Proof. intros H. apply step_inv with (o := o) in H. destruct H as [_ [_ [_ [_ H]
 
 Hypothesis clen_ok : clen <= MaxCookieLen.   (* cookies the client keeps (StoreCookie) *)
 
-Lemma exchange_len p nx sent ok dflt :
+Lemma exchange_len p nx sent ok nosend dflt :
   (1 <= length p <= 8)%nat ->
-  let s' := sys_exchange issue clen p nx sent ok dflt in
+  let s' := sys_exchange issue clen p nx sent ok nosend dflt in
+  if nosend then length (s_pool s') = (length p - 1)%nat else
   if ok then (length p <= length (s_pool s') <= 8)%nat /\ (length p = 8%nat -> length (s_pool s') = 8%nat)
   else length (s_pool s') = (length p - 1)%nat.
 Proof.
   intros Hl. destruct p as [|c rest]; [simpl in Hl; lia|].
   unfold sys_exchange, zlen.
+  destruct nosend; [cbn [s_pool length]; lia|].
   pose proof (refill_bounds (length (c :: rest)) Hl) as Hb. cbv zeta in Hb.
   destruct Hb as [Hb1 Hb]. specialize (Hb1 clen_ok).
   destruct ok; cbn [s_pool].
@@ -323,55 +335,69 @@ Proof.
 Qed.
 
 Theorem success_never_shrinks s o :
-  Inv s -> e_ok o = true ->
+  Inv s -> e_ok o = true -> e_nosend o = false ->
   (length (s_pool s) <= length (s_pool (sys_step issue clen s o)) <= 8)%nat.
 Proof.
-  intros HI Hok. split; [|apply pool_le_eight, HI].
+  intros HI Hok Hns. split; [|apply pool_le_eight, HI].
   destruct HI as [_ [_ [_ [_ Hl]]]]. unfold sys_step.
   destruct (s_pool s) as [|c rest] eqn:Ep; [simpl; lia|].
-  pose proof (exchange_len (c :: rest) (s_next s + e_skip o) (s_sent s) true s ltac:(simpl in *; lia)) as H.
-  cbv zeta in H. rewrite Hok. destruct H as [[H1 _] _]. exact H1.
+  pose proof (exchange_len (c :: rest) (s_next s + e_skip o) (s_sent s) true false s ltac:(simpl in *; lia)) as H.
+  cbv zeta iota in H. rewrite Hok, Hns. destruct H as [[H1 _] _]. exact H1.
 Qed.
 
 Theorem stays_eight s o :
-  Inv s -> e_ok o = true -> length (s_pool s) = 8%nat ->
+  Inv s -> e_ok o = true -> e_nosend o = false -> length (s_pool s) = 8%nat ->
   length (s_pool (sys_step issue clen s o)) = 8%nat.
 Proof.
-  intros HI Hok H8. unfold sys_step.
+  intros HI Hok Hns H8. unfold sys_step.
   destruct (s_pool s) as [|c rest] eqn:Ep; [simpl in H8; lia|].
-  pose proof (exchange_len (c :: rest) (s_next s + e_skip o) (s_sent s) true s ltac:(simpl in *; lia)) as H.
-  cbv zeta in H. rewrite Hok. apply H. exact H8.
+  pose proof (exchange_len (c :: rest) (s_next s + e_skip o) (s_sent s) true false s ltac:(simpl in *; lia)) as H.
+  cbv zeta iota in H. rewrite Hok, Hns. apply H. exact H8.
 Qed.
 
 (* a fresh or drained client that re-keys starts from eight cookies *)
 Theorem rekey_success s o :
-  s_pool s = [] -> e_ke_ok o = true -> e_ok o = true ->
+  s_pool s = [] -> e_ke_ok o = true -> e_ok o = true -> e_nosend o = false ->
   length (s_pool (sys_step issue clen s o)) = 8%nat.
 Proof.
-  intros Ep Hk Hok. unfold sys_step. rewrite Ep, Hk, Hok.
+  intros Ep Hk Hok Hns. unfold sys_step. rewrite Ep, Hk, Hok, Hns.
   pose proof (exchange_len (issue_n issue (s_next s + e_skip o) keCookies) (s_next s + e_skip o + keCookies)
-                (s_sent s) true s) as H.
-  rewrite issue_n_length in H. cbv zeta in H. apply H; unfold keCookies; lia.
+                (s_sent s) true false s) as H.
+  rewrite issue_n_length in H. cbv zeta iota in H. apply H; unfold keCookies; lia.
 Qed.
 
 Theorem rekey_loss s o :
-  s_pool s = [] -> e_ke_ok o = true -> e_ok o = false ->
+  s_pool s = [] -> e_ke_ok o = true -> e_ok o = false \/ e_nosend o = true ->
   length (s_pool (sys_step issue clen s o)) = 7%nat.
 Proof.
-  intros Ep Hk Hok. unfold sys_step. rewrite Ep, Hk, Hok.
+  intros Ep Hk Hok. unfold sys_step. rewrite Ep, Hk.
   pose proof (exchange_len (issue_n issue (s_next s + e_skip o) keCookies) (s_next s + e_skip o + keCookies)
-                (s_sent s) false s) as H.
-  rewrite issue_n_length in H. cbv zeta in H. rewrite H; unfold keCookies; lia.
+                (s_sent s) (e_ok o) (e_nosend o) s) as H.
+  rewrite issue_n_length in H. cbv zeta in H. specialize (H ltac:(unfold keCookies; lia)).
+  destruct (e_nosend o); [rewrite H; reflexivity|].
+  destruct Hok as [Hok|Hok]; [rewrite Hok in *; rewrite H; reflexivity|discriminate].
 Qed.
 
+(* a lost exchange, or a call that ends before its request leaves, costs exactly one cookie *)
 Theorem loss_pops_one s o :
-  Inv s -> s_pool s <> [] -> e_ok o = false ->
+  Inv s -> s_pool s <> [] -> e_ok o = false \/ e_nosend o = true ->
   length (s_pool (sys_step issue clen s o)) = (length (s_pool s) - 1)%nat.
 Proof.
   intros HI Hne Hok. destruct HI as [_ [_ [_ [_ Hl]]]]. unfold sys_step.
   destruct (s_pool s) as [|c rest] eqn:Ep; [congruence|].
-  pose proof (exchange_len (c :: rest) (s_next s + e_skip o) (s_sent s) false s ltac:(simpl in *; lia)) as H.
-  cbv zeta in H. rewrite Hok. exact H.
+  pose proof (exchange_len (c :: rest) (s_next s + e_skip o) (s_sent s) (e_ok o) (e_nosend o) s ltac:(simpl in *; lia)) as H.
+  cbv zeta in H.
+  destruct (e_nosend o); [exact H|].
+  destruct Hok as [Hok|Hok]; [rewrite Hok in *; exact H|discriminate].
+Qed.
+
+(* ... and such a call sends nothing *)
+Theorem nosend_sends_nothing s o :
+  e_nosend o = true -> s_sent (sys_step issue clen s o) = s_sent s.
+Proof.
+  intros Hns. unfold sys_step. destruct (s_pool s) as [|c rest].
+  - destruct (e_ke_ok o); [|reflexivity]. unfold sys_exchange, issue_n, keCookies. cbn [seq map]. rewrite Hns. reflexivity.
+  - unfold sys_exchange. rewrite Hns. reflexivity.
 Qed.
 
 Theorem kefail_nothing s o :
@@ -380,7 +406,8 @@ Theorem kefail_nothing s o :
 Proof. intros Ep Hk. unfold sys_step. rewrite Ep, Hk. simpl. tauto. Qed.
 
 (* loss-free operation: the pool is eight after every call *)
-Definition loss_free (os : list exch) : Prop := Forall (fun o => e_ke_ok o = true /\ e_ok o = true) os.
+Definition loss_free (os : list exch) : Prop :=
+  Forall (fun o => e_ke_ok o = true /\ e_ok o = true /\ e_nosend o = false) os.
 
 Theorem loss_free_eight os :
   loss_free os -> os <> [] -> length (s_pool (sys_run issue clen sys0 os)) = 8%nat.
@@ -389,7 +416,7 @@ Proof.
   assert (G : forall l s, Inv s -> loss_free l -> (s_pool s = [] \/ length (s_pool s) = 8%nat) ->
               l <> [] -> length (s_pool (sys_run issue clen s l)) = 8%nat).
   { clear Hf Hne os. induction l as [|o os IH]; intros s HI Hf Hs Hne; [congruence|].
-    inversion Hf as [|? ? [Hk Hok] Hf']; subst. simpl.
+    inversion Hf as [|? ? [Hk [Hok Hns]] Hf']; subst. simpl.
     assert (H8 : length (s_pool (sys_step issue clen s o)) = 8%nat).
     { destruct Hs as [Hs|Hs]; [apply rekey_success|apply stays_eight]; assumption. }
     destruct os as [|o' os']; [exact H8|].
@@ -406,12 +433,12 @@ Variable issue : nat -> C.
 Hypothesis issue_inj : forall i j, issue i = issue j -> i = j.
 
 Lemma success_level s o :
-  Inv issue s -> s_pool s <> [] -> e_ok o = true ->
+  Inv issue s -> s_pool s <> [] -> e_ok o = true -> e_nosend o = false ->
   Z.of_nat (length (s_pool (sys_step issue 124 s o))) = Z.min 8 (Z.of_nat (length (s_pool s)) + 6).
 Proof.
-  intros HI Hne Hok. destruct HI as [_ [_ [_ [_ Hl]]]]. unfold sys_step.
+  intros HI Hne Hok Hns. destruct HI as [_ [_ [_ [_ Hl]]]]. unfold sys_step.
   destruct (s_pool s) as [|c rest] eqn:Ep; [congruence|].
-  unfold sys_exchange. rewrite Hok. cbn [s_pool]. rewrite app_length, issue_n_length. unfold zlen.
+  unfold sys_exchange. rewrite Hok, Hns. cbn [s_pool]. rewrite app_length, issue_n_length. unfold zlen.
   assert (Hlv : 1 <= Z.of_nat (length (c :: rest)) <= 8) by (cbn [length] in *; lia).
   rewrite (num_placeholders_issued _ Hlv). change (124 <=? MaxCookieLen) with true. cbv iota.
   unfold reply_count. change (max_cookies 32 124) with 7.
@@ -419,16 +446,17 @@ Proof.
 Qed.
 
 Theorem recovers_in_two s o1 o2 :
-  Inv issue s -> e_ke_ok o1 = true -> e_ok o1 = true -> e_ok o2 = true ->
+  Inv issue s -> e_ke_ok o1 = true -> e_ok o1 = true -> e_nosend o1 = false ->
+  e_ok o2 = true -> e_nosend o2 = false ->
   length (s_pool (sys_step issue 124 (sys_step issue 124 s o1) o2)) = 8%nat.
 Proof.
-  intros HI Hk H1 H2.
+  intros HI Hk H1 N1 H2 N2.
   assert (H7 : (7 <= length (s_pool (sys_step issue 124 s o1)))%nat).
   { destruct (s_pool s) as [|c rest] eqn:Ep.
-    - rewrite (rekey_success issue issue_inj 124 ltac:(unfold MaxCookieLen; lia) s o1 Ep Hk H1). lia.
-    - pose proof (success_level s o1 HI ltac:(congruence) H1) as H. rewrite Ep in H. simpl length in H. lia. }
+    - rewrite (rekey_success issue issue_inj 124 ltac:(unfold MaxCookieLen; lia) s o1 Ep Hk H1 N1). lia.
+    - pose proof (success_level s o1 HI ltac:(congruence) H1 N1) as H. rewrite Ep in H. simpl length in H. lia. }
   pose proof (step_inv issue issue_inj 124 s o1 HI) as HI1.
-  pose proof (success_level _ o2 HI1 ltac:(intros E; rewrite E in H7; simpl in H7; lia) H2) as H.
+  pose proof (success_level _ o2 HI1 ltac:(intros E; rewrite E in H7; simpl in H7; lia) H2 N2) as H.
   destruct HI1 as [_ [_ [_ [_ Hl]]]]. lia.
 Qed.
 
